@@ -39,6 +39,9 @@ theorem C08_step_ok (s : St) (t : Spec.C08.S) (op : Op) (h : C08_Inv s t) :
   | restart =>
     simp only [step, Spec.C08.stepOk, C08_Inv, Spec.C08.base, init, true_and]
     exact ⟨by simp, Nat.zero_le _⟩
+  | cancel =>
+    simp only [step, Spec.C08.stepOk, C08_Inv, true_and]
+    exact ⟨hn, hc⟩
   | send r =>
     cases hp : r.pending with
     | none =>
@@ -126,6 +129,9 @@ private theorem lower_bound (t : Spec.C08.S) (es : List Ev) (h : Spec.C08.check 
     | mon c =>
       simp only [C08_lifetimeNonces]; intro m hm
       simpa [Spec.C08.stepOk, Spec.C08.base] using ih _ h2 m hm
+    | cancelled =>
+      simp only [C08_lifetimeNonces]; intro m hm
+      simpa [Spec.C08.stepOk, Spec.C08.base] using ih _ h2 m hm
     | restarted => simp [C08_lifetimeNonces]
 
 /-- **No reuse**: within a lifetime the successfully submitted nonces are strictly increasing. -/
@@ -146,6 +152,7 @@ theorem C08_strictly_increasing (t : Spec.C08.S) (es : List Ev) (h : Spec.C08.ch
       omega
     | failed p => cases p <;> simpa [C08_lifetimeNonces] using ih _ h2
     | mon c => simpa [C08_lifetimeNonces] using ih _ h2
+    | cancelled => simpa [C08_lifetimeNonces] using ih _ h2
     | restarted => simp [C08_lifetimeNonces]
 
 /-- **Window**: every accepted submission is within 1024 of the highest confirmed nonce reported
@@ -172,6 +179,13 @@ theorem C08_failure_consumes_nothing (t : Spec.C08.S) (n p n' p' : Nat) (q : Opt
   cases q with
   | none => simp only at h; omega
   | some x => have := hq x rfl; simp only at h; omega
+
+/-- **Cancellation does not disturb the allocator**: the state after a cancellation is the state
+before it, so every later submission gets the nonce it would have got anyway — in particular the
+send after a send-and-cancel still uses the consecutive nonce. -/
+theorem C08_cancel_is_invisible (s : St) (ops : List Op) :
+    (step s .cancel).1 = s ∧ run s (.cancel :: ops) = .cancelled :: run s ops := by
+  exact ⟨rfl, rfl⟩
 
 /-- **Across a restart** the client persists nothing; strict monotonicity then needs the chain
 node's first answer to exceed what it already accepted from this account.  Under that
